@@ -12,8 +12,8 @@ order; each situation is then a **closed selection** of it:
 * it is *closed* when the kept groups contain exactly the kept persons: a person is kept iff its
   group is kept (nobody in the part belongs to a household outside the part and conversely);
 * `restrict d sel gsel` is the part **simulated alone**: `sel.length` persons, `gsel.length`
-  groups, every kept person attached to the position its group has in `gsel`, the same variables,
-  and every input vector read at the kept indices (`reindex`).
+  groups, every kept person attached to the position its group has in `gsel` with the role it
+  has, the same variables, and every input vector read at the kept indices (`reindex`).
 
 An order-preserving selection (`sel`, `gsel` increasing) is one situation of a merged population;
 a selection that lists *all* persons and *all* groups in another order is a permutation of the
@@ -56,6 +56,7 @@ def restrict (d : Decl) (sel gsel : List Nat) : Decl where
   msl := d.msl
   vars := d.vars
   inputs := d.inputs.map (fun i => (i.1, i.2.1, selVar d sel gsel i.1 i.2.2))
+  roles := sel.map (fun i => d.roles.getD i 0)
 
 /-- closed selection: valid, duplicate-free indices; a person is kept iff its group is kept -/
 def Closed (d : Decl) (sel gsel : List Nat) : Prop :=
@@ -81,13 +82,15 @@ instance (d : Decl) (sel gsel : List Nat) : Decidable (IsPerm d sel gsel) := by
 abbrev permute (d : Decl) (sel gsel : List Nat) : Decl := restrict d sel gsel
 
 /-- entity discipline of a formula expression living on entity `ent`: a sum over members
-    (`op1 1`) yields a group vector from a person vector, a projection (`op1 2`) a person vector
-    from a group vector; every other operation stays on its entity.  (Real formulas that break
+    (`op1 1`) and the role operations (`op1 10..49`: role-filtered sum, value of the unique-role
+    member, number of role holders, any) yield a group vector from a person vector, a projection
+    (`op1 2`) a person vector from a group vector; every other operation stays on its entity.  (Real formulas that break
     this discipline raise a numpy shape error or broadcast.) -/
 def WT : Nat → DExpr → Bool
   | _, .const _ => true
   | _, .var _ _ _ => true
-  | ent, .op1 o a => if o = 1 then (ent != 0) && WT 0 a else if o = 2 then (ent == 0) && WT 1 a else WT ent a
+  | ent, .op1 o a =>
+    if o = 1 ∨ isRoleOp o = true then (ent != 0) && WT 0 a else if o = 2 then (ent == 0) && WT 1 a else WT ent a
   | ent, .op2 _ a b => WT ent a && WT ent b
   | ent, .fail _ a => WT ent a
 
